@@ -144,3 +144,16 @@ def run(tier, seed):
     ck.assumptions += ["liquid cores are static (Saito start); dynamic liquid cores are outside the claim at these frequencies",
                        "converged solves only (100x tighter tolerance moves k,h,l by <= 1e-6)"]
     return ck.finish()
+
+
+def replay(path):
+    import json
+    from .. import solver_obs as so
+    d = json.load(open(path))
+    print(d["desc"][:3000])
+    r = d.get("replay") or {}
+    rep = r.get("rep") if isinstance(r, dict) and "rep" in r else (r if isinstance(r, dict) and "prob" in r else None)
+    if rep:
+        out = so.run_reps([dict(rep)], nproc=1)[0]
+        print(json.dumps({k: out.get(k) for k in ("status", "love", "tight_shift", "msg")}, indent=1)[:3000])
+    return 1
